@@ -215,7 +215,7 @@ fn eval_sweep(req: &str) -> ImplOut {
     }
 }
 
-const WATCHDOG_SECS: u64 = 60;
+const WATCHDOG_SECS: u64 = 20;
 
 fn fv_kind(v: &FormulaValue) -> &'static str {
     match v {
@@ -229,7 +229,7 @@ fn fv_kind(v: &FormulaValue) -> &'static str {
 
 fn gen_sweep(ctx: &Ctx, sink: &mut dyn FnMut(String)) {
     let mut rng = Rng::new(ctx.seed ^ 0xC08);
-    let tuples = if ctx.tier == Tier::Thorough { 200 } else { 16 };
+    let tuples = if ctx.tier == Tier::Thorough { 120 } else { 16 };
     let mut names: Vec<String> = all_function_names();
     for op in OPS {
         names.push(format!("op:{op}"));
@@ -252,7 +252,7 @@ fn gen_sweep(ctx: &Ctx, sink: &mut dyn FnMut(String)) {
                 if size_sensitive && matches!(i, 0 | 1 | 8 | 13 | 18 | 19 | 20) {
                     i = [14usize, 16, 17][rng.below(3) as usize];
                 }
-                let sh = shapes[rng.below(4) as usize];
+                let sh = if size_sensitive { ['l', 'r'][rng.below(2) as usize] } else { shapes[rng.below(4) as usize] };
                 args.push(format!("{sh}{i}"));
             }
             let a = if args.is_empty() { "-".to_string() } else { args.join(",") };
